@@ -7,11 +7,14 @@ GHuge == {[j |-> 0, r |-> <<300, 1>>], [j |-> 0, r |-> <<-125, 1>>]}           \
 GData == GSmall \cup GHuge
 LData == {[j |-> j, q |-> q] : j \in {-2, 0, 3}, q \in {<<"rat", 1, 1>>, <<"rat", 2, 1>>, <<"rat", 1, 3>>, <<"rat", 5, 2>>,
                                                          <<"pow2", 40>>, <<"pow2", -40>>, <<"pow2", 600>>, <<"pow2", -1100>>, <<"pow2", 1100>>}}
+Three == {[j |-> j, r |-> r] : j \in {0, 3}, r \in {<<1, 1>>, <<-3, 1>>, <<1, 2>>}}
+         \cup {[j |-> j, q |-> q] : j \in {0, 3}, q \in {<<"rat", 1, 1>>, <<"rat", 1, 3>>, <<"pow2", -40>>}}
 VARIABLES kind, data, jac, out
 Init == /\ kind \in {"gauss", "cauchy", "logistic"}
         /\ \E n \in 1..MaxN : /\ data \in [1..n -> IF kind = "logistic" THEN LData ELSE GData]
                               /\ jac \in [1..n -> Rows]
         /\ Cardinality({i \in DOMAIN data : data[i] \in GHuge}) <= 1      \* keeps the exact rationals inside 32 bits
+        /\ Len(data) >= 3 => \A i \in DOMAIN data : data[i] \in Three        \* (three data: small denominators only, same reason)
         /\ out = 0
 Next == /\ out = 0 /\ out' = 1 /\ UNCHANGED <<kind, data, jac>>
         /\ PrintT(ToJson([kind |-> kind, data |-> data, jac |-> jac, value |-> Value(kind, data), grad |-> Gradient(kind, data, jac),
